@@ -426,13 +426,19 @@ fn deviations(tr: &[Choice]) -> u32 { tr.iter().map(|c| c.costs[c.chosen as usiz
 /// Enumerates every execution with at most `cfg.max_deviations` deviations; `visit` gets each one.
 /// Returns Err on nondeterministic replay (a machinery error, never a verdict).
 pub fn explore<O: Send + 'static>(cfg: &Config, body: &(dyn Fn() -> O + Sync), visit: &mut dyn FnMut(&[u8], &Execution<O>) -> bool) -> Result<Stats, String> {
+    explore_with(cfg, &mut |prefix: &[u8]| run_one(cfg, prefix, body), visit)
+}
+
+/// as `explore`, with the execution of one schedule prefix supplied by the caller (e.g. in a fresh process, for code
+/// whose process-wide state must not leak from one execution into the next)
+pub fn explore_with<O>(cfg: &Config, runner: &mut dyn FnMut(&[u8]) -> Execution<O>, visit: &mut dyn FnMut(&[u8], &Execution<O>) -> bool) -> Result<Stats, String> {
     let mut st = Stats { by_deviations: vec![0; cfg.max_deviations as usize + 1], ..Default::default() };
     // stack of prefixes still to run
     let mut stack: Vec<Vec<u8>> = vec![vec![]];
     let mut first = true;
     while let Some(prefix) = stack.pop() {
         if st.executions >= cfg.max_executions { st.cap_hit = Some(format!("execution cap {} reached", cfg.max_executions)); break; }
-        let ex = run_one(cfg, &prefix, body);
+        let ex = runner(&prefix);
         if let Err(Failure::ReplayDivergence(m)) = &ex.result { return Err(format!("replay divergence under prefix {:?}: {}", prefix, m)); }
         // the prefix must have been followed exactly
         for (i, c) in prefix.iter().enumerate() { if ex.trace.get(i).map(|t| t.chosen) != Some(*c) { return Err(format!("prefix {:?} not reproduced at point {}", prefix, i)); } }
@@ -444,7 +450,7 @@ pub fn explore<O: Send + 'static>(cfg: &Config, body: &(dyn Fn() -> O + Sync), v
         // determinism spot check: first execution and every 1000th are replayed and must give the same trace shape
         if first || st.executions % 1000 == 0 {
             let chosen: Vec<u8> = ex.trace.iter().map(|c| c.chosen).collect();
-            let ex2 = run_one(cfg, &chosen, body);
+            let ex2 = runner(&chosen);
             let shape = |t: &[Choice]| t.iter().map(|c| (c.options, c.chosen, c.kind)).collect::<Vec<_>>();
             if shape(&ex.trace) != shape(&ex2.trace) || ex.log != ex2.log { return Err(format!("nondeterministic replay of schedule {:?}", chosen)); }
             st.replays_checked += 1;
